@@ -19,6 +19,17 @@ type runCall struct {
 	MetaSend *ast.FuncLit
 }
 
+// runSite: the function that runs the node's source — fn itself, or the helper of fn that was handed that step
+// (a Run split into collect and emit phases).
+func runSite(p *core.Program, fn *core.FuncRef) *core.FuncRef {
+	for _, h := range helperClosure(p, fn) {
+		if len(nodeRunCalls(p, h)) > 0 {
+			return h
+		}
+	}
+	return fn
+}
+
 func nodeRunCalls(p *core.Program, fn *core.FuncRef) []runCall {
 	info := fn.Info()
 	var out []runCall
